@@ -15,6 +15,19 @@ _spec = importlib.util.spec_from_file_location("g13", os.path.join(os.path.dirna
 _c13 = importlib.util.module_from_spec(_spec); _spec.loader.exec_module(_c13)
 # grammar augmentation by the search (alternate pronunciations) must keep arcs between the same states: shared with C13
 GROUPS += [dict(g) for g in _c13.GROUPS if g["name"].startswith("add_alt_2_")]
+W = "harness/C01_wordarcs.c"
+WR = ["fsg_history_entry_add", "dict_wordid", "fsg_pnode_add_all_ctxt", "hmm_enter", "glist_add_ptr", "fsg_history_n_entries", "fsg_history_entry_get"]
+GROUPS += [
+    dict(name="fsg_search_pnode_exit", harness=W, enforce="fsg_search_pnode_exit", min_postconditions=6,
+         replace=WR, allow_no_body=["*"]),
+    dict(name="fsg_pnode_add_all_ctxt", harness="harness/C01_lextree_ctxt.c", enforce="fsg_pnode_add_all_ctxt", min_postconditions=1, allow_no_body=["*"], unwind=6,
+         bounded=None),
+    dict(name="fsg_search_pnode_trans", harness=W, enforce="fsg_search_pnode_trans", min_postconditions=2, loop_contracts=True, loops=["pnode_trans.children"], min_loop_steps=1,
+         replace=WR, allow_no_body=["*"]),
+    dict(name="fsg_search_word_trans", harness=W, enforce="fsg_search_word_trans", min_postconditions=1, loop_contracts=True, loops=["word_trans.entries", "word_trans.roots"], min_loop_steps=2, unwind=24,
+         outside_property=[r"arithmetic overflow on signed shl in 1 << \((lc|rc) & 0x1F\)"],
+         replace=WR, allow_no_body=["*"]),
+]
 ENFORCED_ELSEWHERE = {}
 NATIVE = [
     dict(name="e2e_invariants", source="native/e2e_invariants.c", repo_sources="ALL_EXCEPT:", cflags=["-w", "-fsanitize=address"],
